@@ -448,6 +448,9 @@ def _check_main(ctx, rep: Report):
 def check(ctx, rep):
     from . import metarules, shared
     _check_main(ctx, rep)
+    from . import metarules, r5rules
+    r5rules.remove_by_address(ctx, rep, "C06.REMOVE")
+    r5rules.forward_verbatim(ctx, rep, "C06.FWD")
     shared.unused_params(ctx, rep, "C06.PARAM", ["spec_classes.collections", "spec_classes.methods.collections"])
     shared.own_namespace_lookups(ctx, rep, "C06.NS")
     from . import keyedrules
